@@ -452,8 +452,8 @@ class StmtMixin:
         if isinstance(current, NoneV):
             raise Unsupported(f"loop variable {name} is None before the loop; give its type in Loop(types=...)")
         if isinstance(current, SeqV):
-            current.arr = z3.Const(hint + "[]", current.arr.sort())
-            current.off = 0
+            current.arr = z3.Const(hint + "[]", z3.ArraySort(z3.IntSort(), current.et.sort))
+            current.off, current.fn = 0, None
             current.n = z3.Int(hint + ".len")
             self.ctx.assume(current.n >= 0)
             return current
